@@ -203,4 +203,18 @@ PROPS = {
                 "the limit, or a raw length prefix; distinct = (cell, per-message boundary class, L, S, reply size, prefix).",
         "assumptions": ["HttpBody chunked uploads are framed, not refused: there the oracle is 'every chunk <= L'"],
     },
+    "C05": {
+        "pkg": "c05",
+        "stages": [{"run": "^TestProp$", "quick": (6000, 4), "thorough": (60000, 16)},
+                   {"run": "^TestPropReal$", "quick": (400, 4), "thorough": (4000, 16)}],
+        "technique": "property-based testing (rapid): generated (code, message, details, failure point) x protocol, checked with a real grpc-go client, independent frame/percent/base64/JSON decoders and the documented code tables as oracle",
+        "level_text": "Generated-input search over status codes 0..16 and out-of-range values, messages that need escaping (%, control bytes, multi-byte UTF-8, long), optional details and errors "
+                      "before/after replies on HTTP JSON/protobuf, Twirp, gRPC (real grpc-go client over h2c), gRPC-web(-text) and WebSocket (gobwas client): the client must observe the same code, "
+                      "message and details through independent decoders, and every status value must produce a response. Exploration only.",
+        "level_note": "Trusts grpc-go's client as the gRPC observer and the harness's percent/base64/frame decoders; CANCELLED may map to 408 or 499; Twirp HTTP status and the WebSocket code table are not constrained beyond well-formedness.",
+        "rule": "rapid draws transport, code (0..16, 17, 18, 99, 2^31-1), message (pool of hostile constants, random UTF-8, long runs of 1/2/3-byte characters around the 123-byte close-frame limit), "
+                "0-2 details and the failure point (unary, or server streaming after 0/1/3 replies). Non-trivial = message needs escaping, or details present, or code out of range, or error after "
+                ">=1 reply; distinct = the whole case.",
+        "assumptions": ["on plain HTTP an error after the first reply only requires an intact response"],
+    },
 }
